@@ -14,6 +14,7 @@ All rights reserved. SPDX-License-Identifier: BSD-3-Clause
 #include <chrono>
 #include <functional>
 #include <iostream>
+#include <iterator>
 #include <memory>
 #include <mutex>
 #include <string>
@@ -68,10 +69,44 @@ class DelayedDestructor {
                     }
                 }
             }
+            releaseRemaining();
         }
         catch (...) {
         }
     }
+
+  private:
+    /** let go of whatever is still queued without destroying it as part of
+     * the member vector: the destructor of an element may call back into this
+     * object, which must then still be a valid container. Objects handed over
+     * by such destructors are reaped in the next pass*/
+    void releaseRemaining()
+    {
+        while (true) {
+            destroyObjects();
+            // what destroyObjects cannot reap (still owned elsewhere) is let go
+            std::vector<std::shared_ptr<X>> remaining;
+            {
+                std::lock_guard<std::timed_mutex> lock(destructionLock);
+                if (ElementsToBeDestroyed.empty()) {
+                    break;
+                }
+                auto keep = std::stable_partition(
+                    ElementsToBeDestroyed.begin(),
+                    ElementsToBeDestroyed.end(),
+                    [](const auto& element) {
+                        return element.use_count() == 1;
+                    });
+                remaining.assign(std::make_move_iterator(keep),
+                                 std::make_move_iterator(
+                                     ElementsToBeDestroyed.end()));
+                ElementsToBeDestroyed.erase(keep, ElementsToBeDestroyed.end());
+            }
+            remaining.clear();
+        }
+    }
+
+  public:
     DelayedDestructor(DelayedDestructor&&) noexcept = delete;
     DelayedDestructor& operator=(DelayedDestructor&&) noexcept = delete;
 
@@ -237,10 +272,35 @@ class DelayedDestructorSingleThread {
                     }
                 }
             }
+            releaseRemaining();
         }
         catch (...) {
         }
     }
+
+  private:
+    /** let go of whatever is still queued without destroying it as part of
+     * the member vector: the destructor of an element may call back into this
+     * object, which must then still be a valid container. Objects handed over
+     * by such destructors are reaped in the next pass*/
+    void releaseRemaining()
+    {
+        while (!ElementsToBeDestroyed.empty()) {
+            destroyObjects();
+            // what destroyObjects cannot reap (still owned elsewhere) is let go
+            auto keep = std::stable_partition(
+                ElementsToBeDestroyed.begin(),
+                ElementsToBeDestroyed.end(),
+                [](const auto& element) { return element.use_count() == 1; });
+            std::vector<std::shared_ptr<X>> remaining(
+                std::make_move_iterator(keep),
+                std::make_move_iterator(ElementsToBeDestroyed.end()));
+            ElementsToBeDestroyed.erase(keep, ElementsToBeDestroyed.end());
+            remaining.clear();
+        }
+    }
+
+  public:
     DelayedDestructorSingleThread(DelayedDestructorSingleThread&&) noexcept =
         delete;
     DelayedDestructorSingleThread&
